@@ -108,6 +108,8 @@ def makemove (p : Position) (m : Mv) (updateHash : Bool) : Option Position := do
     usQ := s.usQ && (m.src != ksqUs && m.src != qscUs && m.dst != qscUs),
     themK := s.themK && (m.src != ksqThem && m.src != kscThem && m.dst != kscThem),
     themQ := s.themQ && (m.src != ksqThem && m.src != qscThem && m.dst != qscThem) }
+  -- full-move number: one more after each move by Black
+  let s := if s.black then { s with fullmoves := s.fullmoves + 1 } else s
   pure s.flip
 
 /-- the `debug_assert!`s of makemove (checked build only). -/
